@@ -176,3 +176,63 @@ package reservation
 //@   requires pod != nil && rInfo != nil && diagnosisState != nil
 //@   ensures #owners: result && !isReservationIgnored ==> old(rInfo.ParseError == nil && g_someOwnerMatches(rInfo, pod))
 //@   ensures #ignored: isReservationIgnored ==> result
+
+// ==== Property C19 (rebuild half): the reservation assignment persisted on a pod is replayed into the reservation cache ====
+// The codec half of C19 is ASSUMED: apiext.GetReservationAllocated is a `pure` getter of the pod ("what is persisted"),
+// see /verif/lib/C19.spec. The cache side (reservationCache.updatePod / deletePods: the pod is recorded under / removed from
+// the reservation's AssignedPods, AddAssignedPod of a recorded pod replaces its entry) is verified under C05 above.
+
+// deletePod: a pod whose persisted assignment names a reservation UID is removed from exactly that reservation, once.
+//@ func (*podEventHandler).deletePod [C19]
+//@   requires h != nil && h.cache != nil && h.nominator != nil && pod != nil
+//@   requires cacheInv(h.cache) && (forall u types.UID :: {has(h.cache.reservationInfos, u)} entryOK(h.cache, u))
+//@   assert before call deletePod: #own: $recv == h.cache && $arg1 == pod && lastresult("GetReservationAllocated", 1) == nil && lastresult("GetReservationAllocated", 0) != nil && $arg0 == lastresult("GetReservationAllocated", 0).UID && $arg0 != ""
+//@   assert before call GetReservationAllocated: #persisted: $arg0 == pod
+// (reservationCache.deletePods [C05] has no frame clause: after it nothing is known about the heap, so the "if" direction
+// is stated at the first call after the decision, on the path that did not call it)
+//@   assert before call IsReservationOperatingMode: #complete: calls("deletePod") == 0 ==> !(lastresult("GetReservationAllocated", 1) == nil && lastresult("GetReservationAllocated", 0) != nil && lastresult("GetReservationAllocated", 0).UID != "")
+//@   ensures #once: calls("deletePod") <= 1 && calls("GetReservationAllocated") == 1
+//@   ensures #noadd: calls("updatePod") == 0
+
+// "the reservation assignment persisted on the pod whose annotation was decoded last": its UID, "" when there is none
+// (no annotation, undecodable, or an empty UID).
+// updatePod (add event: oldPod == nil; update event: oldPod = previous object).
+//   #persisted  reservationCache.updatePod is called on the handler's cache with the two objects of the event, the new
+//               reservation UID being the one persisted on the NEW object ("" if none) and, on an add event, no old UID:
+//               the cache then records the pod under that reservation (C05 updatePod#added) - the same call for an add
+//               event and for an update event carrying the same assignment (AddAssignedPod replaces the entry);
+//   #when       only for an assigned, non-terminated new object, never after a deletePod;
+//   #complete   and always when the new object carries an assignment (stated at the first call after the decision);
+//   #whom       a terminated pod is deleted itself, an un-assigned one deletes the old object (if that had a node).
+//@ func (*podEventHandler).updatePod [C19]
+//@   requires h != nil && h.cache != nil && h.nominator != nil && newPod != nil
+//@   requires cacheInv(h.cache) && (forall u types.UID :: {has(h.cache.reservationInfos, u)} entryOK(h.cache, u))
+//@   requires forall u types.UID, v types.UID :: {h.cache.reservationInfos[u], h.cache.reservationInfos[v]} has(h.cache.reservationInfos, u) && has(h.cache.reservationInfos, v) && u != v ==> h.cache.reservationInfos[u].AssignedPods != h.cache.reservationInfos[v].AssignedPods
+//@   assert before call updatePod: #persisted: $recv == h.cache && $arg2 == oldPod && $arg3 == newPod && $arg1 == (lastresult("GetReservationAllocated", 1) == nil && lastresult("GetReservationAllocated", 0) != nil ? lastresult("GetReservationAllocated", 0).UID : "") && (oldPod == nil ==> $arg0 == "") && ($arg0 != "" || $arg1 != "")
+//@   assert before call updatePod: #when: !util.IsPodTerminated(newPod) && newPod.Spec.NodeName != "" && calls("deletePod") == 0
+//@   assert before call GetReservationAllocated: #decoded: $arg0 == newPod || (oldPod != nil && $arg0 == oldPod)
+//@   assert before call IsReservationOperatingMode: #complete: calls("updatePod") == 0 ==> !(lastresult("GetReservationAllocated", 1) == nil && lastresult("GetReservationAllocated", 0) != nil && lastresult("GetReservationAllocated", 0).UID != "")
+//@   assert before call deletePod: #whom: util.IsPodTerminated(newPod) ? $arg0 == newPod : (newPod.Spec.NodeName == "" && oldPod != nil && $arg0 == oldPod && oldPod.Spec.NodeName != "")
+//@   ensures #once: calls("updatePod") <= 1 && calls("deletePod") <= 1 && calls("updatePod") + calls("deletePod") <= 1
+//@   ensures #terminated: util.IsPodTerminated(newPod) ==> calls("deletePod") == 1 && calls("updatePod") == 0
+
+// Informer wrappers: every pod event is forwarded unchanged; anything that carries no pod is dropped.
+//@ spec func hOK(h *podEventHandler) bool = h != nil && h.cache != nil && h.nominator != nil && cacheInv(h.cache) && (forall u types.UID :: {has(h.cache.reservationInfos, u)} entryOK(h.cache, u)) && (forall u types.UID, v types.UID :: {h.cache.reservationInfos[u], h.cache.reservationInfos[v]} has(h.cache.reservationInfos, u) && has(h.cache.reservationInfos, v) && u != v ==> h.cache.reservationInfos[u].AssignedPods != h.cache.reservationInfos[v].AssignedPods)
+//@ spec func evPod(obj any) *corev1.Pod = typeis(obj, *corev1.Pod) ? payload(obj, *corev1.Pod) : nil
+//@ func (*podEventHandler).OnAdd [C19]
+//@   requires hOK(h)
+//@   assert before call updatePod: #fwd: $arg0 == nil && $arg1 == evPod(obj) && $arg1 != nil
+//@   ensures #iff: calls("updatePod") == (evPod(obj) != nil ? 1 : 0)
+
+//@ func (*podEventHandler).OnUpdate [C19]
+//@   requires hOK(h)
+//@   requires typeis(newObj, *corev1.Pod) ==> payload(newObj, *corev1.Pod) != nil
+//@   assert before call updatePod: #fwd: typeis(oldObj, *corev1.Pod) && typeis(newObj, *corev1.Pod) && $arg0 == payload(oldObj, *corev1.Pod) && $arg1 == payload(newObj, *corev1.Pod)
+//@   ensures #iff: calls("updatePod") == (typeis(oldObj, *corev1.Pod) && typeis(newObj, *corev1.Pod) ? 1 : 0)
+
+//@ spec func tombPod(obj any) *corev1.Pod = typeis(obj, cache.DeletedFinalStateUnknown) ? evPod(payload(obj, cache.DeletedFinalStateUnknown).Obj) : nil
+//@ spec func deletedPod(obj any) *corev1.Pod = typeis(obj, *corev1.Pod) ? payload(obj, *corev1.Pod) : tombPod(obj)
+//@ func (*podEventHandler).OnDelete [C19]
+//@   requires hOK(h)
+//@   assert before call deletePod: #fwd: $arg0 == deletedPod(obj) && $arg0 != nil
+//@   ensures #iff: calls("deletePod") == (deletedPod(obj) != nil ? 1 : 0)
